@@ -114,6 +114,7 @@ func (x *Exec) evalBuiltin(st *State, e *ast.CallExpr, name string) []*Value {
 			if u, ok := t.Underlying().(*types.Map); ok {
 				n := x.b.App("map.len."+sanitize(mapKeyName(u)), is, x.mapDomOf(st, v, u))
 				x.assume(st, x.b.Le(x.b.Num(big.NewInt(0), is), n, true))
+				x.assume(st, x.b.Le(n, x.b.Num(new(big.Int).Lsh(big.NewInt(1), 48), is), true))
 				return []*Value{scalarV(intT, n)}
 			}
 			x.note("len-of-chan")
@@ -214,7 +215,7 @@ func (x *Exec) evalMake(st *State, e *ast.CallExpr) *Value {
 		}
 		// Go panics for negative or huge sizes; huge = beyond 2^47 elements
 		// (a conservative stand-in for "len out of range").
-		lim := x.b.Num(new(big.Int).Lsh(big.NewInt(1), 48), is)
+		lim := x.b.Num(new(big.Int).Lsh(big.NewInt(1), 50), is)
 		x.safety(st, "makesize", e, x.b.And(x.b.Le(zero, n, true), x.b.Le(n, c, true), x.b.Le(c, lim, true)))
 		v := x.zeroValue(t)
 		v.L["len"], v.L["cap"], v.L["off"], v.L["nil"] = n, c, zero, x.b.False()
@@ -403,7 +404,7 @@ func (x *Exec) funcIsPure(f *types.Func) bool {
 }
 
 func isLibPure(q string) bool {
-	for _, p := range []string{"strconv.", "strings.", "math.", "math/bits.", "fmt.Sprintf", "fmt.Sprint", "fmt.Errorf", "errors.", "bytes.", "unicode", "time.", "sort.", "encoding/binary.", "github.com/jimsnab/go-lane.", "math/rand.", "sync/atomic.Load", "math/big.", "reflect."} {
+	for _, p := range []string{"strconv.", "strings.", "math.", "math/bits.", "fmt.Sprintf", "fmt.Sprint", "fmt.Errorf", "errors.", "bytes.", "unicode", "time.", "sort.", "encoding/binary.", "github.com/jimsnab/go-lane.", "math/rand.", "sync/atomic.Load", "math/big.", "reflect.", "encoding/json.", "encoding/hex.", "unicode/utf8.", "slices.", "maps."} {
 		if strings.HasPrefix(q, p) {
 			return true
 		}
@@ -877,6 +878,9 @@ func (x *Exec) applyContract(st *State, c *Contract, callee *types.Func, recv *V
 		if clauseUsesFresh(c, r) {
 			continue // per-case assumption of the callee's own proof (covered by case.cover)
 		}
+		if r.Free {
+			continue // stated assumption on inputs (listed in the evidence), not checked at call sites
+		}
 		x.skolem = true
 		g := x.evalClauseIn(st, r, specPos, q)
 		x.skolem = false
@@ -1022,7 +1026,7 @@ func (x *Exec) havocModifies(st *State, mods []string) {
 			if strings.HasSuffix(m, ".*") && strings.HasPrefix(k, m[:len(m)-1]) {
 				return true
 			}
-			if strings.HasPrefix(k, m+".") {
+			if strings.HasPrefix(k, m+".") || (m == "map" && strings.HasPrefix(k, "map<")) {
 				return true
 			}
 		}
